@@ -821,13 +821,25 @@ def rule_duplicates(chk):
     f2 = M.find_func(nn, 'get_nearest_neighbors')
     g2 = C.build_cfg(f2)
     did, out = f2.args.args[1].arg, f2.args.args[2].arg
-    qn = [n.id for n in g2.nodes if n.ast is not None and isinstance(n.ast, ast.Expr) and M.call_name(n.ast.value) == 'self.find_nearest_neighbors']
-    rn = [n.id for n in g2.nodes if n.ast is not None and isinstance(n.ast, ast.Expr) and M.call_name(n.ast.value) in (out + '.c_reset', out + '.reset')]
-    cached = [c for c in M.calls(f2) if (M.call_name(c) or '').endswith('.get_neighbors_raw')]
-    gi = M.enclosing(cached[0], (ast.If,)) if cached else None
-    ok = bool(qn) and bool(rn) and g2.must_pass(g2.entry, qn[0], rn) and [compact(x) for x in g2.nodes[qn[0]].ast.value.args] == [did, out] and \
-        len(cached) == 1 and [compact(x) for x in cached[0].args] == [did, out] and gi is not None and same(gi.test, 'self.use_cache') and \
-        compact(cached[0].func.value) == 'self.current_cache'
+    # per path: with the cache the answer is current_cache.get_neighbors_raw(d_idx, nbrs) and nothing else; without it the output is reset and then filled by the search
+    ok = True
+    kinds = set()
+    for p_ in PT.enumerate_paths(M.docstring_stripped(f2.body)):
+        cl = [(cal, [compact(PT.resolve(a_, env)) for a_ in c.args]) for i, c, cal, env in PT.calls_on(p_)]
+        withc = PT.took(p_, True, 'self.use_cache') is not None
+        noc = PT.took(p_, False, 'self.use_cache') is not None
+        if withc:
+            kinds.add('cached')
+            ok = ok and [x for x in cl if x[0] in ('self.current_cache.get_neighbors_raw', 'self.find_nearest_neighbors')] == [('self.current_cache.get_neighbors_raw', [did, out])]
+        elif noc:
+            kinds.add('uncached')
+            names_ = [x[0] for x in cl]
+            ok = ok and ('self.find_nearest_neighbors', [did, out]) in cl and any(n_ in (out + '.c_reset', out + '.reset') for n_ in names_) and \
+                min(k for k, n_ in enumerate(names_) if n_ in (out + '.c_reset', out + '.reset')) < names_.index('self.find_nearest_neighbors') and \
+                'self.current_cache.get_neighbors_raw' not in names_
+        else:
+            ok = False
+    ok = ok and kinds == set(['cached', 'uncached'])
     chk.decide(ok, 'no-duplicates', 'evaluator-entry-resets-output', node=f2, file=NB, func='NNPS.get_nearest_neighbors',
                detail_bad='the evaluator entry point does not reset the output before an uncached query (or the cached path is not current_cache.get_neighbors_raw(d_idx, nbrs) under use_cache)',
                detail_ok='c_reset() dominates the query; cached path returns a view')
